@@ -14,7 +14,11 @@ import (
 )
 
 // A mutant is /verif/selftest/{mutants,refactors}/<property>/<name>.diff (unified diff against /repo, -p1).
+// selftestLines collects the result lines of the latest selftest run (used by the thorough tier).
+var selftestLines []string
+
 func selftest(args []string) int {
+	selftestLines = nil
 	only, onlyKind := "", ""
 	for _, a := range args {
 		if a == "mutants" || a == "refactors" {
@@ -106,7 +110,9 @@ func selftest(args []string) int {
 				status = "FAIL"
 				bad++
 			}
-			fmt.Printf("%s %s %s/%s: %s\n", status, j.kind, j.prop, strings.TrimSuffix(filepath.Base(j.path), ".diff"), msg)
+			line := fmt.Sprintf("%s %s %s/%s: %s", status, j.kind, j.prop, strings.TrimSuffix(filepath.Base(j.path), ".diff"), msg)
+			selftestLines = append(selftestLines, line)
+			fmt.Println(line)
 			mu.Unlock()
 		}(j)
 	}
